@@ -167,9 +167,9 @@ CHECKERS = {"values": chk_values, "refuse": chk_refuse, "ape_pipeline": chk_ape_
 
 def _cases(tier, seed):
     rng = np.random.default_rng(seed + 101)
-    K = 60 if tier == "quick" else 3000
+    K = 60 if tier == "quick" else 400
     for it in range(K):
-        n = int(rng.integers(1, 12)) if it % 3 else int(rng.integers(1, 300 if tier == "quick" else 10000))
+        n = int(rng.integers(1, 12)) if it % 3 else int(rng.integers(1, 300 if tier == "quick" else 3000))
         sd = int(rng.integers(0, 10**9))
         for rel in RELS:
             base = {"seed": sd, "n": n, "relation": rel, "from_poses": bool(it % 2), "stamps": bool(it % 3),
@@ -203,7 +203,7 @@ def bounded(tier, seed):
                       "UTM-like offsets, relative angles tiny and near pi) x 6 relations: values vs. the definition, zero / "
                       "common-motion / swap; unequal lengths; ape() with all flag combinations x planes x units against the "
                       "documented order; evo_ape run() in-process on generated TUM files",
-                 bounds={"max_poses": 300 if tier == "quick" else 10000, "seed": seed})
+                 bounds={"max_poses": 300 if tier == "quick" else 3000, "seed": seed})
 
 
 def concretize(vc, tier, seed):
